@@ -64,10 +64,25 @@ pub fn run(ctx: &mut Ctx) {
         let scale = flat.max_abs_payoff().max(1e-300) + fg.constant.abs();
         let ext = if rng.chance(0.15) { Some("txt") } else { None };
         let path = cli::write_game_file(&scratch, &format!("c15-{}-{}", ctx.shard, idx % 64), &fg, ext);
+        // white space around the document is legal in both formats
+        let mut text = fg.text.clone();
+        if rng.chance(0.15) {
+            text = format!("{}{}{}", *rng.pick(&["\n", "  ", "\r\n\r\n", "\t\n "]), text, *rng.pick(&["", "\n", " \n\n"]));
+            std::fs::write(&path, &text).expect("write game file");
+            ctx.count("files-with-surrounding-white-space", 1);
+        }
         for _ in 0..2 {
-            let (mut args, adesc) = option_set(rng);
-            args.extend(["-i".to_string(), path.clone()]);
-            if ext.is_some() && rng.chance(0.5) {
+            let (mut args, mut adesc) = option_set(rng);
+            // one run in eight reads the game from standard input (format detected from the content
+            // unless stated)
+            let from_stdin = rng.chance(0.125);
+            if from_stdin {
+                adesc.push_str(" <stdin");
+                ctx.count("runs-reading-standard-input", 1);
+            } else {
+                args.extend(["-i".to_string(), path.clone()]);
+            }
+            if (ext.is_some() || from_stdin) && rng.chance(0.5) {
                 args.extend(["--input-format".to_string(), if fg.format == Format::Json { "json" } else { "gambit" }.to_string()]);
             }
             // one run in five writes to -o; the path may already hold an earlier (longer) result
@@ -89,13 +104,13 @@ pub fn run(ctx: &mut Ctx) {
                 ctx.count("runs-with-output-file", 1);
             }
             ctx.mark(idx, &adesc);
-            let mut r = cli::run(&cli_path, &args, None, Duration::from_secs(120));
+            let mut r = cli::run(&cli_path, &args, if from_stdin { Some(&text) } else { None }, Duration::from_secs(120));
             if to_file && r.status == Some(0) {
                 // what the user gets is the content of the file
                 r.stdout = std::fs::read_to_string(&opath).unwrap_or_default();
             }
             let _ = std::fs::remove_file(&opath);
-            let detail = || json!({"file": fg.text, "args": args, "desc": desc, "features": fg.features, "stderr": r.stderr.chars().take(600).collect::<String>(), "stdout": r.stdout.chars().take(1500).collect::<String>()});
+            let detail = || json!({"file": text, "stdin": from_stdin, "args": args, "desc": desc, "features": fg.features, "stderr": r.stderr.chars().take(600).collect::<String>(), "stdout": r.stdout.chars().take(1500).collect::<String>()});
             if r.timed_out {
                 ctx.inconclusive("cli-watchdog");
                 continue;
@@ -155,7 +170,7 @@ pub fn run(ctx: &mut Ctx) {
         let _ = std::fs::remove_file(&path);
     });
     ctx.finish(crate::report::extra(
-        "cases = (game file, option set) runs of the shipped binary: files generated from G1/G2 trees in the JSON DSL (shuffled key order, optional/null chance infosets, integer and float literals) and in Gambit .efg (constant sums in {0,10,-3.5,1,100}, payoffs split over interior nodes, outcomes shared between terminals, unnamed and partly named infosets, names equal to number strings of the other player's infosets, rational and decimal chance probabilities, chance actions that all carry the same label, unsorted action lists, outcome names, comma/space payoff lists, comment, names with quotes/backslashes/non-ascii) x -m {full,sampled,external,default} x -d {five presets, default} x -t {1,10,200; 0 only with -m full -d vanilla -r 0.05} x -r x -p {1,2,0} x -c {none,0,0.01,0.3} x extension {.json/.efg, .txt with or without --input-format} x output {stdout, -o file that is absent / holds a longer earlier result / holds a shorter one}. Required: exit status 0; stdout is one JSON object; both strategies list every infoset of the file for that player with positive probabilities over the file's action names summing to 1; printed utilities equal the O5 evaluation of the printed strategies on the harness' semantic tree of the file for each player's own payoffs (constant-sum files: they add up to the constant); printed regrets equal the best-response gains; regret is the larger one. distinct = hash(file text, options); non-trivial = game has a decision infoset.",
+        "cases = (game file, option set) runs of the shipped binary: files generated from G1/G2 trees in the JSON DSL (shuffled key order, optional/null chance infosets, integer and float literals) and in Gambit .efg (constant sums in {0,10,-3.5,1,100}, payoffs split over interior nodes, outcomes shared between terminals, unnamed and partly named infosets, names equal to number strings of the other player's infosets, rational and decimal chance probabilities, chance actions that all carry the same label, unsorted action lists, outcome names, comma/space payoff lists, comment, names with quotes/backslashes/non-ascii) x -m {full,sampled,external,default} x -d {five presets, default} x -t {1,10,200; 0 only with -m full -d vanilla -r 0.05} x -r x -p {1,2,0} x -c {none,0,0.01,0.3} x extension {.json/.efg, .txt with or without --input-format} x route {-i file, standard input with or without --input-format} x {document as written, surrounded by white space} x output {stdout, -o file that is absent / holds a longer earlier result / holds a shorter one}. Required: exit status 0; stdout is one JSON object; both strategies list every infoset of the file for that player with positive probabilities over the file's action names summing to 1; printed utilities equal the O5 evaluation of the printed strategies on the harness' semantic tree of the file for each player's own payoffs (constant-sum files: they add up to the constant); printed regrets equal the best-response gains; regret is the larger one. distinct = hash(file text, options); non-trivial = game has a decision infoset.",
         &["the harness' semantic tree is the meaning of the file (Gambit: infosets are identified by number, payoffs accumulate along the path)", "tolerance 1e-9 x (max|payoff| + |constant|)"],
     ));
 }
